@@ -742,7 +742,8 @@ impl BatchAdapterFactory {
             .expr_adapter_factory
             .create(Arc::clone(&self.target_schema), Arc::clone(source_schema))?;
 
-        let simplifier = PhysicalExprSimplifier::new(&self.target_schema);
+        // The adapted expressions are evaluated against batches of the source schema.
+        let simplifier = PhysicalExprSimplifier::new(source_schema);
 
         let projection = ProjectionExprs::from_indices(
             &(0..self.target_schema.fields().len()).collect_vec(),
